@@ -23,7 +23,8 @@ static Case decode(const uint8_t *data, size_t size) {
     static const int qoffs[] = {0, 1, 541, 542, 543, 0xFFFF};
     for (int i = 0; i < n && fdp.remaining_bytes() > 0; i++) {
         Op o;
-        int k = fdp.ConsumeIntegralInRange<int>(0, 12);
+        int k = fdp.ConsumeIntegralInRange<int>(0, 13);
+        if (k == 13) { o.kind = 13; o.a = {fdp.ConsumeIntegralInRange<int>(1, 40), fdp.ConsumeIntegralInRange<int>(0, 0xFFFF), fdp.ConsumeIntegralInRange<int>(0, 1)}; c.ops.push_back(o); continue; }
         if (k == 12) { o.kind = 12; o.a = {fdp.ConsumeIntegralInRange<int>(0, 500), fdp.ConsumeIntegralInRange<int>(0, 1000), fdp.ConsumeIntegralInRange<int>(0, 1)}; c.ops.push_back(o); continue; }
         if (k == 0) { o.kind = 10; c.ops.push_back(o); continue; }
         if (k == 1) { o.kind = 11; o.a = {fdp.ConsumeIntegralInRange<int>(0, 120000)}; c.ops.push_back(o); continue; }
